@@ -69,7 +69,7 @@ func Load(repo string, all bool) (*Prog, error) {
 		Mode:       mode,
 		Dir:        repo,
 		Env:        env,
-		BuildFlags: []string{"-mod=readonly"},
+		BuildFlags: []string{"-mod=readonly", "-trimpath"},
 		Tests:      false,
 	}
 	pkgs, err := packages.Load(cfg, "./...")
